@@ -55,7 +55,8 @@ def _alarm(signum, frame):
 
 def with_timeout(fn, seconds=5):
     old = signal.signal(signal.SIGALRM, _alarm)
-    signal.setitimer(signal.ITIMER_REAL, seconds)
+    # repeating: library code that swallows exceptions (try/except inside cmp, as_primitive) must not eat the only alarm
+    signal.setitimer(signal.ITIMER_REAL, seconds, 0.05)
     try:
         return fn()
     finally:
